@@ -13,7 +13,7 @@ open ArgoVerif.Model.Ledger ArgoVerif.Gen.Ladders
 def siteOf (n : String) : Nat := siteNames.idxOf n
 
 /-- `ythread_create` with a stackable scheduler: pre-existing objects are untouched in every run except
-    those where an error is returned after a key-table entry has been registered (finding F8) -/
+    those where an error is returned after a key-table entry has been registered (finding C18-A) -/
 def preUntouchedBeforeKey (o : Outcome) : Bool :=
   preUntouched ythread_create_with_sched o ||
     (o.st.injected && o.isError && o.st.trace.any (fun e => e == Ev.acqOk (siteOf "ABTI_ktable_set_unsafe")))
